@@ -5,13 +5,13 @@ go 1.26.5
 require (
 	filippo.io/edwards25519 v1.2.0
 	github.com/MixinNetwork/mixin v0.0.0
+	github.com/dgraph-io/badger/v4 v4.9.4
 	github.com/dgraph-io/ristretto/v2 v2.4.2
 	github.com/zeebo/blake3 v0.2.4
 )
 
 require (
 	github.com/cespare/xxhash/v2 v2.3.0 // indirect
-	github.com/dgraph-io/badger/v4 v4.9.4 // indirect
 	github.com/dustin/go-humanize v1.0.1 // indirect
 	github.com/google/flatbuffers v25.12.19+incompatible // indirect
 	github.com/klauspost/compress v1.19.0 // indirect
